@@ -184,6 +184,14 @@ func runC04(c *Ctx) {
 		}
 		rec := &addrRecorder{m: m}
 		s.AddReporter(rec)
+		if m <= 4096 && r.Chance(1, 3) {
+			// the bundled recorder is part of the simulator as users see it: whatever the battle does (wrapping code,
+			// reads past the end of the core, Reset) it must not crash
+			sr := g.NewStateRecorder(s)
+			sr.SetRecordRead(r.Bool())
+			s.AddReporter(sr)
+			c.Inc("battles_with_the_bundled_state_recorder_attached")
+		}
 		var ws []g.Warrior
 		for i := 0; i < nw; i++ {
 			l := r.Range(1, min(m, 12))
